@@ -570,6 +570,11 @@ def process_fn(toks, it, fs: FnSpec, qual, ed: Edits, log, unit_in_trait_impl):
                 pv -= 1
             if toks[pv].kind == "punct" and toks[pv].text == "::":
                 continue  # part of a longer path
+            nx_ = next_sig(toks, b + 1, hi)
+            if nx_ is not None and toks[nx_].text == "=>" and toks[pv].kind == "punct" and toks[pv].text in ("{", ",", "}"):
+                # a constant used as a match-arm pattern: `C => e`  ->  `__vxc if __vxc == C() => e`
+                ed.replace(toks[a].pos, toks[b].end, "__vxc if __vxc == " + CONSTMOD + "::" + extconst_name(cpath) + "()")
+                continue
             ed.replace(toks[a].pos, toks[b].end, CONSTMOD + "::" + extconst_name(cpath) + "()")
         if occ:
             log["rewrites"].append({"rule": "R10", "fn": qual, "before": cpath, "after": extconst_name(cpath) + "()", "count": len(occ)})
@@ -663,6 +668,52 @@ def process_fn(toks, it, fs: FnSpec, qual, ed: Edits, log, unit_in_trait_impl):
         if cnt == 0:
             raise LostAnchor(f"{qual}: deref {ident} {op}: no occurrence")
         log["rewrites"].append({"rule": "R9", "fn": qual, "before": f"{ident} {op} …", "after": f"*{ident} {op} …", "count": cnt})
+    # R17 (automatic): `for .. { if C { S; continue; } REST }`  ->  `for .. { if C { S; } else { REST } }`
+    # (Verus's for loops have no `continue`; the two forms are the same control flow)
+    for k in range(lo, hi):
+        t = toks[k]
+        if not (t.kind == "ident" and t.text == "continue"):
+            continue
+        semi = next_sig(toks, k + 1, hi)
+        if semi is None or toks[semi].text != ";":
+            continue
+        ifclose = next_sig(toks, semi + 1, hi)
+        if ifclose is None or toks[ifclose].text != "}":
+            raise LostAnchor(f"{qual}: R17: `continue` is not the last statement of its block")
+        # the block that ends at ifclose
+        depth = 0
+        ifopen = None
+        for q in range(ifclose, lo - 1, -1):
+            if toks[q].kind == "punct" and toks[q].text == "}": depth += 1
+            elif toks[q].kind == "punct" and toks[q].text == "{":
+                depth -= 1
+                if depth == 0:
+                    ifopen = q; break
+        after = next_sig(toks, ifclose + 1, hi)
+        if ifopen is None or (after is not None and toks[after].text == "else"):
+            raise LostAnchor(f"{qual}: R17: unsupported shape around `continue`")
+        # parent block = a for-loop body
+        lps = find_loops(toks, lo, hi)
+        parent = None
+        for l in lps:
+            bc = match_close(toks, l.body_open)
+            if l.body_open < ifopen and ifclose < bc:
+                if parent is None or l.body_open > parent[0]:
+                    parent = (l.body_open, bc, l.kind)
+        if parent is None or parent[2] != "for":
+            continue    # `continue` in while / loop: supported by Verus
+        # the if must sit directly in the loop body: no other open block between
+        depth = 0
+        direct = True
+        for q in range(parent[0] + 1, ifopen):
+            if toks[q].kind == "punct" and toks[q].text == "{": depth += 1
+            elif toks[q].kind == "punct" and toks[q].text == "}": depth -= 1
+        if depth != 0:
+            raise LostAnchor(f"{qual}: R17: `continue` nested deeper than an `if` directly in the for body")
+        ed.replace(toks[k].pos, toks[semi].end, "")
+        ed.insert(toks[ifclose].end, " else {", prio=-2)
+        ed.insert(toks[parent[1]].pos, "} ", prio=2)
+        log["rewrites"].append({"rule": "R17", "fn": qual, "before": "if C { S; continue; } REST", "after": "if C { S; } else { REST }", "count": 1})
     # R16: X.is_some_and(|p| BODY) -> (match X { Some(p) => BODY, None => false })   [closures that capture `&mut`
     # state are outside Verus's dialect; the match is what Option::is_some_and is defined to do]
     if getattr(fs, "r16", False):
